@@ -1249,10 +1249,10 @@ def grammar_leaves(v, pruned=False, sfx=''):
     """operands of depth 0 by type for the query variable v (X 'var' of Person): attributes,
     constants and external parameters"""
     L = {
-        INT: [attr(v, 'n'), attr(v, 'm'), const(-3), const(0), const(2), param('xi' + sfx, 2), param('yi' + sfx, -3)],
+        INT: [attr(v, 'n'), attr(v, 'm'), const(-1), const(0), const(2), param('xi' + sfx, 2), param('yi' + sfx, -3)],
         FLOAT: [attr(v, 'f'), const(2.5), param('xf' + sfx, -0.5)],
         DEC: [attr(v, 'd'), const(Decimal('1.50')), param('xd' + sfx, Decimal('-0.75'))],
-        STR: [attr(v, 's'), attr(v, 't'), const('ab'), const('A_'), const('%'), const(''), param('xs' + sfx, 'b'), param('ys' + sfx, 'A_')],
+        STR: [attr(v, 's'), attr(v, 't'), const('ab'), const('a_'), const('%'), const(''), param('xs' + sfx, 'b'), param('ys' + sfx, 'a_'), param('zs' + sfx, '%b')],
         BOOL: [attr(v, 'b'), const(True), param('xb' + sfx, False)],
         DATE: [attr(v, 'dt'), const(date(2021, 1, 1)), param('xdt' + sfx, date(2020, 2, 29))],
         TD: [const(timedelta(days=1)), param('xtd' + sfx, timedelta(days=-366))],
@@ -1262,7 +1262,7 @@ def grammar_leaves(v, pruned=False, sfx=''):
     }
     if pruned:
         L = {INT: [L[INT][0], L[INT][4], L[INT][6]], FLOAT: [L[FLOAT][0], L[FLOAT][2]], DEC: [L[DEC][0], L[DEC][1]],
-             STR: [L[STR][0], L[STR][1], L[STR][3], L[STR][6]], BOOL: [L[BOOL][0]], DATE: [L[DATE][0], L[DATE][2]],
+             STR: [L[STR][0], L[STR][1], L[STR][3], L[STR][8]], BOOL: [L[BOOL][0]], DATE: [L[DATE][0], L[DATE][2]],
              TD: [L[TD][0]], 'Dept': [L['Dept'][0]], 'Tag': L['Tag'], 'Person': [v]}
     return L
 
@@ -1293,7 +1293,7 @@ def apply_signatures(sigs, operands, require_deep=None, externals=1, wide=None):
     of them are kept per signature. require_deep(x) filters operand tuples (used for exact depth)."""
     out = []
     for op, ats, rt in sigs:
-        lists = [(wide if (wide is not None and len(ats) >= 3) else operands).get(t, ()) for t in ats]
+        lists = [(wide if (wide is not None and len(ats) >= 3 and not (op == 'slice' and t == INT)) else operands).get(t, ()) for t in ats]
         if op in NO_CONST_OPERAND: lists = [[x for x in l if x.op != 'const'] for l in lists]
         if any(not l for l in lists): continue
         next_ext = externals
@@ -1339,7 +1339,7 @@ def enumerate_exprs(v, depth=1, sfx=''):
         # productions with three or more operands draw from shorter lists (two columns, one
         # constant, one parameter per type) to keep the product small
         L3 = dict(ops)
-        L3.update({INT: [L[INT][0], L[INT][1], L[INT][4], L[INT][6]], STR: [L[STR][0], L[STR][1], L[STR][3], L[STR][6]],
+        L3.update({INT: [L[INT][0], L[INT][1], L[INT][4], L[INT][6]], STR: [L[STR][0], L[STR][1], L[STR][3], L[STR][7]],
                    FLOAT: [L[FLOAT][0], L[FLOAT][2]], BOOL: [L[BOOL][0], L[BOOL][2]]})
         return apply_signatures(sigs, ops, wide=L3) + extra_forms(v, L)
     L = grammar_leaves(v, pruned=True, sfx=sfx)
